@@ -143,10 +143,11 @@ theorem sep_steps_pending {p : Pend} (hp : Complete p) {x : GCh} {S : List GCh} 
 /-- possibly empty separators behind a complete pending lexeme: either it stays pending or it is emitted -/
 theorem sep_steps_any {p : Pend} (hp : Complete p) {S : List GCh} (h : isSep false S = true) :
     ∃ ts p', Steps p false S ts p' (cmtAfter false S) ∧ Complete p' ∧ ts ++ ftoks p' = ftoks p ∧
-      (cmtAfter false S = true → p' = .none) ∧ (S ≠ [] → p' = .none) := by
+      (cmtAfter false S = true → p' = .none) ∧ (S ≠ [] → p' = .none) ∧ (S = [] → p' = p) := by
   cases S with
-  | nil => exact ⟨[], p, Steps.nil _ _, hp, by simp, by simp [cmtAfter], by simp⟩
-  | cons x xs => exact ⟨ftoks p, .none, sep_steps_pending hp h, trivial, by simp [ftoks], fun _ => rfl, fun _ => rfl⟩
+  | nil => exact ⟨[], p, Steps.nil _ _, hp, by simp, by simp [cmtAfter], by simp, fun _ => rfl⟩
+  | cons x xs =>
+    exact ⟨ftoks p, .none, sep_steps_pending hp h, trivial, by simp [ftoks], fun _ => rfl, fun _ => rfl, by simp⟩
 
 /-! numerals -/
 
